@@ -175,9 +175,92 @@ PROPS = {
                         S("bag", "all", [], 3000, 100000)]},
     "C18": {"streams": [S("icase", "all", ["C18"], 0, 0, explicit=icase_scope, exhaustive=True),
                         S("icase", "all", ["C18"], 3000, 100000)]},
+    "C20": {"custom": None},
     "C19": {"streams": [S("regq", "all", ["C19"], 0, 0, explicit=regq_scope, exhaustive=True),
                         S("regq", "all", ["C19"], 2000, 60000)]},
 }
+
+
+# ----------------------------------------------------------------------------- C20: differential purity runs
+def run_c20(tier, seed, escalate=False, replay=None):
+    import subprocess
+    import tempfile
+    n = 240 if tier == "quick" else 4000
+    if escalate:
+        n *= 2
+    seeds = ["0", "1", "2", "random"]
+    os.makedirs(engine.WORK, exist_ok=True)
+    failures = []
+    cov = {"evaluations": 0, "disagreements": 0, "checker_failures": 0, "streams": []}
+    with tempfile.TemporaryDirectory(dir=engine.WORK) as td:
+        cf = os.path.join(td, "cases.json")
+        if replay is not None:
+            json.dump([replay["case"]], open(cf, "w"))
+        else:
+            env = dict(os.environ, PYTHONHASHSEED="0")
+            subprocess.run(["/venv/bin/python", os.path.join(HERE, "purity.py"), "gen", str(seed), str(n), cf],
+                           check=True, env=env, timeout=1800)
+        cases = json.load(open(cf))
+        nsh = max(1, min(4, len(cases) // 20))
+        shards = [cases[i::nsh] for i in range(nsh)]
+        procs = []
+        for si, sh_cases in enumerate(shards):
+            sf = os.path.join(td, f"shard{si}.json")
+            json.dump(sh_cases, open(sf, "w"))
+            for hs in seeds:
+                of = os.path.join(td, f"out{si}_{hs}.json")
+                env = dict(os.environ, PYTHONHASHSEED=hs)
+                procs.append((si, hs, of, subprocess.Popen(["/venv/bin/python", os.path.join(HERE, "purity.py"), "run", sf, of],
+                                                           env=env, stdout=subprocess.PIPE, stderr=subprocess.PIPE)))
+        outs = {}
+        for si, hs, of, p in procs:
+            _o, err = p.communicate(timeout=3600)
+            if p.returncode != 0:
+                failures.append({"kind": "harness", "component": "purity", "case": None,
+                                 "detail": f"purity worker failed (PYTHONHASHSEED={hs}): {err.decode()[-600:]}"})
+                continue
+            outs[(si, hs)] = json.load(open(of))
+        dist = {}
+        for si, sh_cases in enumerate(shards):
+            for k, c in enumerate(sh_cases):
+                cov["evaluations"] += 1
+                dist[c["kind"]] = dist.get(c["kind"], 0) + 1
+                rs = {hs: outs[(si, hs)][k] for hs in seeds if (si, hs) in outs}
+                problem = None
+                for hs, r in rs.items():
+                    if r["r1"] != r["r2"]:
+                        problem = f"two calls in one process (PYTHONHASHSEED={hs}, unrelated work in between) returned different results"
+                    elif r["mutated"]:
+                        problem = f"argument modified: {r['mutated']}"
+                vals = list(rs.items())
+                for hs, r in vals[1:]:
+                    if r["r1"] != vals[0][1]["r1"]:
+                        problem = f"fresh interpreters with PYTHONHASHSEED={vals[0][0]} and {hs} returned different results"
+                if problem:
+                    cov["checker_failures"] += 1
+                    failures.append({"kind": "checker", "component": "purity", "case": c, "detail": problem,
+                                     "impl": {hs: r["r1"] for hs, r in rs.items()}})
+        cov["distribution"] = dist
+        cov["hash_seeds"] = seeds
+        cov["samples"] = [c for c in cases[:2]]
+        cov["distinct_nontrivial"] = len({json.dumps(c, sort_keys=True) for c in cases})
+        cov["rule"] = ("cases generated from VERIF_SEED (loader descriptions, ISA tables, program texts, whole library "
+                       "pipelines); each is run twice per interpreter with unrelated work in between, in fresh "
+                       "interpreters with PYTHONHASHSEED in {0,1,2,random}; arguments are compared with their pre-call "
+                       "copies; distinct = distinct case JSON")
+        # the tie to the one pure value of the model: the ordinary components on the same inputs
+        if replay is None:
+            stats = engine.Stats()
+            for comp, kind, key in (("loader", "loader", None), ("isa", "isa", None), ("parse", "parse", None)):
+                ex = [c["case"] for c in cases if c["kind"] == kind]
+                if ex:
+                    reps = engine.run_cases(comp, seed, len(ex), {}, explicit=ex)
+                    _judge_stream(S(comp, "all" if comp != "loader" else "err", [], 0, 0), reps, failures, cov, stats)
+            cov["model_compared"] = stats.counters["evaluations"]
+    cov["exhaustive"] = False
+    import implrun_probe
+    cov["shim_active"] = implrun_probe.shim_active()
+    return {"failures": failures, "coverage": cov}
 
 
 # ----------------------------------------------------------------------------- running
@@ -227,6 +310,8 @@ def _judge_stream(stream, reps, failures, cov, stats):
 
 def run_property(pid, tier, seed, escalate=False, replay=None):
     prop = PROPS[pid]
+    if "custom" in prop:
+        return prop["custom"](tier, seed, escalate=escalate, replay=replay)
     failures = []
     cov = {"evaluations": 0, "disagreements": 0, "checker_failures": 0, "streams": []}
     stats = engine.Stats()
@@ -317,3 +402,6 @@ def coqchk(pid):
     p = subprocess.run(f"timeout 1500 coqchk -silent -o -Q model PS -Q spec PS -Q proofs PS -Q props PS PS.{pid} 2>&1 | tail -30",
                        shell=True, capture_output=True, text=True, cwd=os.path.join(VERIF, "coq"))
     return p.stdout[-3000:]
+
+
+PROPS["C20"]["custom"] = run_c20
